@@ -341,8 +341,11 @@ class Ctx:
                 res["why"] = f"false at the witness: {tm.show(t, 200)}"
                 self.candidates.append(Candidate(i, what, "true", dict(self.eng.envq), res["why"]))
                 break
-            out = self.solver.prove(pre, t)
+            out = self.solver.prove(list(self.pre), t) if len(pre) > len(self.pre) else {"status": "skip"}
             res["queries"] += 1
+            if out["status"] != "unsat":
+                out = self.solver.prove(pre, t)
+                res["queries"] += 1
             st = out["status"]
             if st == "unsat":
                 continue
